@@ -660,29 +660,20 @@ class MQTTProtocol(MQTTBaseProtocol):
         '''
         #log.debug("{event}", event="Clean Persistent Session")
         self._cancelAlarms()    # nothing may be re-sent for a request that is discarded
-        for k in list(self.factory.windowSubscribe[self.addr]):
-            request = self.factory.windowSubscribe[self.addr][k]
-            del self.factory.windowSubscribe[self.addr][k]
-            request.deferred.errback(reason)
-        for k in list(self.factory.windowUnsubscribe[self.addr]):
-            request = self.factory.windowUnsubscribe[self.addr][k]
-            del self.factory.windowUnsubscribe[self.addr][k]
-            request.deferred.errback(reason)
-        for k in list(self.factory.windowPublish[self.addr]):
-            request = self.factory.windowPublish[self.addr][k]
-            del self.factory.windowPublish[self.addr][k]
-            request.deferred.errback(reason)
-
-        for k in list(self.factory.windowPubRelease[self.addr]):
-            request = self.factory.windowPubRelease[self.addr][k]
-            del self.factory.windowPubRelease[self.addr][k]
-            request.deferred.errback(reason)
-
+        # Empty the session first and tell the application afterwards: an errback
+        # may call back into the API and must not find half a session
+        discarded = []
+        for window in (self.factory.windowSubscribe[self.addr], self.factory.windowUnsubscribe[self.addr],
+                       self.factory.windowPublish[self.addr],   self.factory.windowPubRelease[self.addr]):
+            discarded.extend(window.values())
+            window.clear()
         # messages still held back in the queue belong to the session too
         while self.factory.queuePublishTx[self.addr]:
             request = self.factory.queuePublishTx[self.addr].popleft()
             if request.msgId:   # QoS 0 deferreds have already fired
-                request.deferred.errback(reason)
+                discarded.append(request)
+        for request in discarded:
+            request.deferred.errback(reason)
 
 
     # -------------------------------------
